@@ -5,7 +5,8 @@ import (
 	"os"
 )
 
-// ratingNaN: also draw rating tables whose first two abscissae coincide (x == x0 == x1 → frac = 0/0 → panic("nan")).
+// ratingNaN: also draw rating tables whose first two abscissae coincide (x == x0 == x1; 0/0 before the Piecewise
+// repair, the exact knot value since) or with a NaN proportion (→ frac NaN → panic("nan")).
 // ratingPartition prints diagnostics to stdout before that panic; the worker child keeps them off the protocol stream.
 // OW_C16_NAN=0 switches these tables off.
 var ratingNaN = os.Getenv("OW_C16_NAN") != "0"
@@ -82,6 +83,9 @@ func ratingTable(r *Rng, n int) (xs, ys []float64) {
 	}
 	if n >= 2 && r.Chance(0.04) && ratingNaN {
 		xs[1] = xs[0]
+	}
+	if n >= 1 && r.Chance(0.03) && ratingNaN {
+		ys[r.Intn(n)] = math.NaN() // NaN proportion → frac NaN → panic("nan")
 	}
 	if n >= 3 && r.Chance(0.04) {
 		i := r.Range(1, n-1)
